@@ -4,7 +4,7 @@
 (* written in the source stands for, and what number an integer / float     *)
 (* spelling stands for.  The lexer accepts in ordinary strings any          *)
 (* character except `"`, `\` and control characters, plus the escapes       *)
-(*     \" \\ \/ \b \f \n \r \t \uXXXX                                       *)
+(*     \" \\ \/ \b \f \n \r \t \uXXXX  (and \uD8xx\uDCxx surrogate pairs)      *)
 (* (the JSON set); a multi-line string is the lines after each `\\` joined   *)
 (* by line feeds, taken verbatim.                                           *)
 (***************************************************************************)
@@ -16,14 +16,21 @@ CONSTANT MaxPieces
 Hex(c) == IF c >= 48 /\ c <= 57 THEN c - 48 ELSE IF c >= 97 /\ c <= 102 THEN c - 87 ELSE c - 55
 Utf8(cp) == IF cp < 128 THEN <<cp>>
             ELSE IF cp < 2048 THEN <<192 + (cp \div 64), 128 + (cp % 64)>>
-            ELSE <<224 + (cp \div 4096), 128 + ((cp \div 64) % 64), 128 + (cp % 64)>>
+            ELSE IF cp < 65536 THEN <<224 + (cp \div 4096), 128 + ((cp \div 64) % 64), 128 + (cp % 64)>>
+            ELSE <<240 + (cp \div 262144), 128 + ((cp \div 4096) % 64), 128 + ((cp \div 64) % 64), 128 + (cp % 64)>>
 Esc(c, d) == [src |-> <<92, c>>, den |-> <<d>>]
 U4(h) == [src |-> <<92, 117>> \o h, den |-> Utf8(Hex(h[1]) * 4096 + Hex(h[2]) * 256 + Hex(h[3]) * 16 + Hex(h[4]))]
+\* a character outside the basic plane is written as a surrogate pair \uD8xx\uDCxx (the JSON convention)
+H4(h) == Hex(h[1]) * 4096 + Hex(h[2]) * 256 + Hex(h[3]) * 16 + Hex(h[4])
+UPair(hi, lo) == [src |-> <<92, 117>> \o hi \o <<92, 117>> \o lo, den |-> Utf8(65536 + (H4(hi) - 55296) * 1024 + (H4(lo) - 56320))]
 Plain(bs) == [src |-> bs, den |-> bs]
 
 Pieces == {Plain(<<97>>), Plain(<<32>>), Plain(<<195, 169>>), Plain(<<39>>),
            Esc(34, 34), Esc(92, 92), Esc(47, 47), Esc(98, 8), Esc(102, 12), Esc(110, 10), Esc(114, 13), Esc(116, 9),
-           U4(<<48, 48, 52, 49>>), U4(<<48, 48, 101, 57>>), U4(<<50, 48, 65, 67>>), U4(<<48, 48, 48, 97>>)}
+           U4(<<48, 48, 52, 49>>), U4(<<48, 48, 101, 57>>), U4(<<50, 48, 65, 67>>), U4(<<48, 48, 48, 97>>),
+           \* \uD83D\uDE00 (U+1F600), \uD834\uDD1E (U+1D11E), \uD836\uDC00 (U+1D800), \uDBFF\uDFFF (U+10FFFF)
+           UPair(<<68, 56, 51, 68>>, <<68, 69, 48, 48>>), UPair(<<68, 56, 51, 52>>, <<68, 68, 49, 69>>),
+           UPair(<<68, 56, 51, 54>>, <<68, 67, 48, 48>>), UPair(<<68, 66, 70, 70>>, <<68, 70, 70, 70>>)}
 
 RECURSIVE Cat(_, _)
 Cat(ps, f) == IF ps = <<>> THEN <<>> ELSE (IF f = "src" THEN Head(ps).src ELSE Head(ps).den) \o Cat(Tail(ps), f)
